@@ -15,6 +15,7 @@ import (
 	"encoding/json"
 	"fmt"
 	"math/big"
+	"os"
 	"runtime/debug"
 	"sort"
 	"sync/atomic"
@@ -117,12 +118,18 @@ type c35Case struct {
 	PubKey  [c35NP]bool   `json:"pubkey"`
 	Base    []c35BaseVote `json:"base"`
 	Events  []c35Event    `json:"events"`
+	// chained terms: term k+1 is calculated on the records the calculator wrote for term k
+	Next [][]c35Event `json:"next_terms,omitempty"`
 }
 
 func (c *c35Case) clone() *c35Case {
 	n := *c
 	n.Base = append([]c35BaseVote(nil), c.Base...)
 	n.Events = append([]c35Event(nil), c.Events...)
+	n.Next = nil
+	for _, t := range c.Next {
+		n.Next = append(n.Next, append([]c35Event(nil), t...))
+	}
 	return &n
 }
 
@@ -156,25 +163,30 @@ type c35Viol struct {
 }
 
 type c35Result struct {
-	viol       []c35Viol
-	herr       string // harness error (calculation failed on a valid history, ...)
-	total      *big.Int
-	rewardable int // P-Reps with a positive reward
-	paidVoters int // voters with a positive voter reward
-	pairs      int // (voter,P-Rep) pairs with a positive share
-	wagePaid   int
-	capped     int // P-Reps whose accumulated power < accumulated votes (bond requirement bites)
-	unregPaid  bool
-	newcomer   bool // the address registered in the term ends it enabled with accumulated power > 0
+	viol            []c35Viol
+	herr            string // harness error (calculation failed on a valid history, ...)
+	total           *big.Int
+	rewardable      int // P-Reps with a positive reward
+	paidVoters      int // voters with a positive voter reward
+	pairs           int // (voter,P-Rep) pairs with a positive share
+	wagePaid        int
+	capped          int // P-Reps whose accumulated power < accumulated votes (bond requirement bites)
+	unregPaid       bool
+	newcomer        bool // the address registered in the term ends it enabled with accumulated power > 0
+	cappedSamePower bool // a later term starts with a P-Rep whose votes changed in the previous term while its (bond-limited) power did not
 }
 
 // c35Exec runs one case through the real calculator and evaluates the oracle.
 func c35Exec(c *c35Case) (res c35Result) {
+	term := 0
 	bad := func(sig, f string, a ...interface{}) {
-		res.viol = append(res.viol, c35Viol{sig, fmt.Sprintf(f, a...)})
+		d := fmt.Sprintf(f, a...)
+		if len(c.Next) > 0 {
+			d = fmt.Sprintf("term %d of %d: %s", term+1, len(c.Next)+1, d)
+		}
+		res.viol = append(res.viol, c35Viol{sig, d})
 	}
 	database := db.NewMapDB()
-	stage := icstage.NewState(database)
 	reward := icreward.NewState(database, nil)
 
 	L := int64(c.Limit)
@@ -182,7 +194,7 @@ func c35Exec(c *c35Case) (res c35Result) {
 
 	// ---- reference: accumulated votes straight from the raw history
 	type pair [2]int
-	av := map[pair]*big.Int{}
+	var av map[pair]*big.Int
 	acc := func(from, to int, amt *big.Int, weight int64) {
 		k := pair{from, to}
 		x := av[k]
@@ -218,7 +230,6 @@ func c35Exec(c *c35Case) (res c35Result) {
 			continue
 		}
 		apply(b.From, b.To, b.Kind, amt)
-		acc(b.From, b.To, amt, period)
 		if b.Kind == c35KDeleg {
 			delegated[b.To].Add(delegated[b.To], amt)
 			dl[b.From] = append(dl[b.From], icstate.NewDelegation(c35Addr[b.To], new(big.Int).Set(amt)))
@@ -259,260 +270,413 @@ func c35Exec(c *c35Case) (res c35Result) {
 		icstate.KeyIcps:   icmodule.Rate(c35IcpsRate),
 		icstate.KeyIrelay: icmodule.Rate(0),
 	}))
-	must(stage.AddGlobalV3(0, c35RevisionForRun, c.Limit, c.Elected, icmodule.Rate(c.BondReq), rFund, c35Icx(c35MinBondICX)))
+	baseSS := reward.GetSnapshot()
+	prevIScore := [6]*big.Int{}
+	for a := range prevIScore {
+		prevIScore[a] = new(big.Int)
+	}
+	powerOf := func(to int) *big.Int { // reference power of a P-Rep from the true votes
+		b, v := new(big.Int), new(big.Int)
+		for k, x := range cur {
+			if k[1] == to {
+				v.Add(v, x)
+				if k[2] == c35KBond {
+					b.Add(b, x)
+				}
+			}
+		}
+		if c.BondReq == 0 {
+			return v
+		}
+		pw := new(big.Int).Mul(b, big.NewInt(c35RateDenom))
+		pw.Quo(pw, big.NewInt(c.BondReq))
+		if pw.Cmp(v) > 0 {
+			return v
+		}
+		return pw
+	}
+	votedOf := func(to int) *big.Int {
+		v := new(big.Int)
+		for k, x := range cur {
+			if k[1] == to {
+				v.Add(v, x)
+			}
+		}
+		return v
+	}
+	prevSamePower := false
+	for term = 0; term <= len(c.Next); term++ {
+		events := c.Events
+		if term > 0 {
+			events = c.Next[term-1]
+		}
+		if prevSamePower {
+			res.cappedSamePower = true
+		}
+		// votes in force when the term starts (the TRUE history, not the calculator's records)
+		type bv struct {
+			from, to, kind int
+			amt            *big.Int
+		}
+		var termBase []bv
+		av = map[pair]*big.Int{}
+		{
+			keys := make([][3]int, 0, len(cur))
+			for k := range cur {
+				keys = append(keys, k)
+			}
+			sort.Slice(keys, func(i, j int) bool {
+				for x := 0; x < 3; x++ {
+					if keys[i][x] != keys[j][x] {
+						return keys[i][x] < keys[j][x]
+					}
+				}
+				return false
+			})
+			for _, k := range keys {
+				if cur[k].Sign() > 0 {
+					termBase = append(termBase, bv{k[0], k[1], k[2], new(big.Int).Set(cur[k])})
+					acc(k[0], k[1], cur[k], period)
+				}
+			}
+		}
+		var pw0, vt0 [c35NP]*big.Int
+		for i := 0; i < c35NP; i++ {
+			pw0[i], vt0[i] = powerOf(i), votedOf(i)
+		}
+		stage := icstage.NewState(database)
+		must(stage.AddGlobalV3(0, c35RevisionForRun, c.Limit, c.Elected, icmodule.Rate(c.BondReq), rFund, c35Icx(c35MinBondICX)))
 
-	// ---- events of the term
-	for _, e := range c.Events {
-		if e.Off < 0 || e.Off > c.Limit {
-			res.herr = "event offset outside the term"
+		// ---- events of the term
+		for _, e := range events {
+			if e.Off < 0 || e.Off > c.Limit {
+				res.herr = "event offset outside the term"
+				return
+			}
+			switch e.Kind {
+			case c35KEnable:
+				_, err := stage.AddEventEnable(e.Off, c35Addr[e.Target], icmodule.EnableStatus(e.Status))
+				must(err)
+			default:
+				vl := make(icstage.VoteList, 0, len(e.Votes))
+				for _, v := range e.Votes {
+					amt := c35Big(v.Amt)
+					if !apply(e.From, v.To, e.Kind, amt) {
+						res.herr = "illegal history: negative vote"
+						return
+					}
+					acc(e.From, v.To, amt, L-int64(e.Off))
+					vl = append(vl, icstage.NewVote(c35Addr[v.To], new(big.Int).Set(amt)))
+				}
+				var err error
+				if e.Kind == c35KBond {
+					_, _, err = stage.AddEventBond(e.Off, c35Addr[e.From], vl)
+				} else {
+					_, _, err = stage.AddEventDelegation(e.Off, c35Addr[e.From], vl)
+				}
+				must(err)
+			}
+		}
+		if res.herr != "" {
 			return
 		}
-		switch e.Kind {
-		case c35KEnable:
-			_, err := stage.AddEventEnable(e.Off, c35Addr[e.Target], icmodule.EnableStatus(e.Status))
-			must(err)
-		default:
-			vl := make(icstage.VoteList, 0, len(e.Votes))
-			for _, v := range e.Votes {
-				amt := c35Big(v.Amt)
-				if !apply(e.From, v.To, e.Kind, amt) {
-					res.herr = "illegal history: negative vote"
-					return
-				}
-				acc(e.From, v.To, amt, L-int64(e.Off))
-				vl = append(vl, icstage.NewVote(c35Addr[v.To], new(big.Int).Set(amt)))
-			}
-			var err error
-			if e.Kind == c35KBond {
-				_, _, err = stage.AddEventBond(e.Off, c35Addr[e.From], vl)
-			} else {
-				_, _, err = stage.AddEventDelegation(e.Off, c35Addr[e.From], vl)
-			}
-			must(err)
-		}
-	}
-	if res.herr != "" {
-		return
-	}
 
-	ctx := &c35Ctx{back: stage.GetSnapshot(), base: reward.GetSnapshot(), stats: NewStats()}
-	ctx.temp = icreward.NewStateFromSnapshot(ctx.base)
-	r, err := NewIISS4Reward(ctx)
-	if err != nil {
-		res.herr = "NewIISS4Reward: " + err.Error()
-		return
-	}
-	if p := ev.Catch(func() { err = r.Calculate() }); p != "" {
-		bad("calculate-panic", "Calculate panicked: %s", p)
-		return
-	}
-	if err != nil {
-		res.herr = "Calculate: " + err.Error()
-		return
-	}
-
-	// ---- observe
-	iscore := func(a int) *big.Int {
-		is, err := ctx.temp.GetIScore(c35Addr[a])
-		if err != nil || is == nil {
-			return new(big.Int)
-		}
-		return new(big.Int).Set(is.Value())
-	}
-	total := new(big.Int)
-	credited := [6]*big.Int{}
-	for a := range credited {
-		credited[a] = iscore(a)
-		total.Add(total, credited[a])
-		if credited[a].Sign() < 0 {
-			bad("negative-iscore", "%s credited %s", c35Names[a], credited[a])
-		}
-	}
-	res.total = total
-	var vr, commission, wage, avCode [c35NP]*big.Int
-	sumWage, sumCommission := new(big.Int), new(big.Int)
-	for i := 0; i < c35NP; i++ {
-		vr[i], commission[i], wage[i], avCode[i] = new(big.Int), new(big.Int), new(big.Int), new(big.Int)
-		if r.pi == nil {
-			continue
-		}
-		p := r.pi.GetPRep(icutils.ToKey(c35Addr[i]))
-		if p == nil {
-			continue
-		}
-		vr[i].Set(p.VoterReward())
-		commission[i].Set(p.commission)
-		wage[i].Set(p.wage)
-		avCode[i].Set(p.AccumulatedVoted())
-		sumWage.Add(sumWage, wage[i])
-		sumCommission.Add(sumCommission, commission[i])
-		if vr[i].Sign() < 0 || commission[i].Sign() < 0 || wage[i].Sign() < 0 {
-			bad("negative-prep-reward", "%s commission=%s voterReward=%s wage=%s", c35Names[i], commission[i], vr[i], wage[i])
-		}
-		if vr[i].Sign() > 0 || commission[i].Sign() > 0 || wage[i].Sign() > 0 {
-			res.rewardable++
-			if i == 3 {
-				res.unregPaid = true
+		prevSamePower = false
+		for i := 0; i < c35NP-1; i++ {
+			if vt0[i].Cmp(votedOf(i)) != 0 && pw0[i].Cmp(powerOf(i)) == 0 && pw0[i].Sign() > 0 {
+				prevSamePower = true
 			}
 		}
-		if wage[i].Sign() > 0 {
-			res.wagePaid++
-		}
-		if i == 3 && p.Status() == icmodule.ESEnable && p.AccumulatedPower().Sign() > 0 {
-			res.newcomer = true
-		}
-		if p.AccumulatedPower().Cmp(p.AccumulatedVoted()) < 0 && p.AccumulatedPower().Sign() > 0 {
-			res.capped++
-		}
-	}
-
-	// ---- oracle 1: budget. fund(term) = Iglobal*rate/10000 * period / MonthBlock loop, *1000 IScore
-	budget := func(rate int64) *big.Int { // scaled by MonthBlock*RateDenom to stay exact
-		b := new(big.Int).Mul(iglobal, big.NewInt(rate))
-		b.Mul(b, big.NewInt(period))
-		return b.Mul(b, big.NewInt(c35IScorePerLoop))
-	}
-	scale := big.NewInt(c35MonthBlock * c35RateDenom)
-	prepSide := new(big.Int).Sub(total, sumWage) // commissions + voter rewards
-	if new(big.Int).Mul(prepSide, scale).Cmp(budget(c35IprepRate)) > 0 {
-		bad("budget-exceeded:commission+voter>Iprep-fund-of-term",
-			"credited commission+voter rewards %s IScore > Iprep fund of the term %s/%s", prepSide, budget(c35IprepRate), scale)
-	}
-	if new(big.Int).Mul(sumWage, scale).Cmp(budget(c35IwageRate)) > 0 {
-		bad("budget-exceeded:wage>Iwage-fund-of-term",
-			"credited wages %s IScore > Iwage fund of the term %s/%s", sumWage, budget(c35IwageRate), scale)
-	}
-	if new(big.Int).Mul(total, scale).Cmp(budget(c35IprepRate+c35IwageRate)) > 0 {
-		bad("budget-exceeded:total>Iprep+Iwage-fund-of-term",
-			"credited total %s IScore > fund of the term %s/%s", total, budget(c35IprepRate+c35IwageRate), scale)
-	}
-	if st := ctx.stats.Total(); st.Cmp(total) != 0 {
-		bad("credited-iscore!=reported-total", "sum of IScore entries %s, calculator statistics %s", total, st)
-	}
-
-	// ---- oracle 2: proportional share, from the reference accumulated votes
-	avTotal := [c35NP]*big.Int{}
-	for i := range avTotal {
-		avTotal[i] = new(big.Int)
-	}
-	for k, x := range av {
-		if x.Sign() < 0 {
-			res.herr = "illegal history: negative accumulated votes"
+		ctx := &c35Ctx{back: stage.GetSnapshot(), base: baseSS, stats: NewStats()}
+		ctx.temp = icreward.NewStateFromSnapshot(ctx.base)
+		r, err := NewIISS4Reward(ctx)
+		if err != nil {
+			res.herr = "NewIISS4Reward: " + err.Error()
 			return
 		}
-		avTotal[k[1]].Add(avTotal[k[1]], x)
-	}
-	share := func(from, to int) *big.Int {
-		x := av[pair{from, to}]
-		if x == nil || x.Sign() == 0 || vr[to].Sign() == 0 || avTotal[to].Sign() == 0 {
-			return new(big.Int)
+		if p := ev.Catch(func() { err = r.Calculate() }); p != "" {
+			bad("calculate-panic", "Calculate panicked: %s", p)
+			return
 		}
-		s := new(big.Int).Mul(x, vr[to])
-		return s.Quo(s, avTotal[to])
-	}
-	for i := 0; i < c35NP; i++ {
-		if vr[i].Sign() > 0 && avCode[i].Cmp(avTotal[i]) != 0 {
-			rel := "<"
-			if avCode[i].Cmp(avTotal[i]) > 0 {
-				rel = ">"
-			}
-			bad("prep-accumulated-votes"+rel+"sum-of-voters-accumulated-votes",
-				"%s AccumulatedVoted()=%s, votes accumulated over the term from the raw history=%s", c35Names[i], avCode[i], avTotal[i])
+		if err != nil {
+			res.herr = "Calculate: " + err.Error()
+			return
 		}
-	}
-	voters := []int{c35V0, c35V1, 0}
-	for _, v := range voters {
-		want := new(big.Int)
-		for to := 0; to < c35NP; to++ {
-			s := share(v, to)
-			want.Add(want, s)
-			if s.Sign() > 0 {
-				res.pairs++
-			}
-		}
-		if want.Sign() > 0 {
-			res.paidVoters++
-		}
-		got := new(big.Int).Set(credited[v])
-		if v < c35NP {
-			got.Sub(got, commission[v])
-			got.Sub(got, wage[v])
-		}
-		if c := got.Cmp(want); c != 0 {
-			rel := "<"
-			if c > 0 {
-				rel = ">"
-			}
-			bad("voter-iscore"+rel+"proportional-share",
-				"%s credited %s as voter, proportional share of the voter rewards is %s", c35Names[v], got, want)
-		}
-	}
-	for i := 1; i < c35NP; i++ { // P-Reps that never vote: exactly commission + wage
-		want := new(big.Int).Add(commission[i], wage[i])
-		if credited[i].Cmp(want) != 0 {
-			bad("prep-iscore!=commission+wage", "%s credited %s, commission+wage=%s", c35Names[i], credited[i], want)
-		}
-	}
 
-	// ---- oracle 3: the real Voter, one (voter, P-Rep) pair at a time
-	if r.pi != nil {
-		for to := 0; to < c35NP; to++ {
-			sum := new(big.Int)
-			for _, v := range voters {
-				if av[pair{v, to}] == nil {
-					continue
+		// ---- observe
+		iscore := func(a int) *big.Int {
+			is, err := ctx.temp.GetIScore(c35Addr[a])
+			if err != nil || is == nil {
+				return new(big.Int)
+			}
+			return new(big.Int).Set(is.Value())
+		}
+		total := new(big.Int)
+		credited := [6]*big.Int{}
+		for a := range credited {
+			now := iscore(a)
+			credited[a] = new(big.Int).Sub(now, prevIScore[a])
+			prevIScore[a] = now
+			total.Add(total, credited[a])
+			if credited[a].Sign() < 0 {
+				bad("negative-iscore", "%s credited %s", c35Names[a], credited[a])
+			}
+		}
+		if res.total == nil {
+			res.total = new(big.Int)
+		}
+		res.total.Add(res.total, total)
+		var vr, commission, wage, avCode [c35NP]*big.Int
+		sumWage, sumCommission := new(big.Int), new(big.Int)
+		for i := 0; i < c35NP; i++ {
+			vr[i], commission[i], wage[i], avCode[i] = new(big.Int), new(big.Int), new(big.Int), new(big.Int)
+			if r.pi == nil {
+				continue
+			}
+			p := r.pi.GetPRep(icutils.ToKey(c35Addr[i]))
+			if p == nil {
+				continue
+			}
+			vr[i].Set(p.VoterReward())
+			commission[i].Set(p.commission)
+			wage[i].Set(p.wage)
+			avCode[i].Set(p.AccumulatedVoted())
+			sumWage.Add(sumWage, wage[i])
+			sumCommission.Add(sumCommission, commission[i])
+			if vr[i].Sign() < 0 || commission[i].Sign() < 0 || wage[i].Sign() < 0 {
+				bad("negative-prep-reward", "%s commission=%s voterReward=%s wage=%s", c35Names[i], commission[i], vr[i], wage[i])
+			}
+			if vr[i].Sign() > 0 || commission[i].Sign() > 0 || wage[i].Sign() > 0 {
+				res.rewardable++
+				if i == 3 {
+					res.unregPaid = true
 				}
-				voter := NewVoter(c35Addr[v], c35Log)
-				for _, b := range c.Base {
-					if b.From != v || b.To != to {
-						continue
-					}
-					amt := c35Big(b.Amt)
-					if amt.Sign() <= 0 {
-						continue
-					}
-					if b.Kind == c35KDeleg {
-						voter.ApplyVoting(&icreward.Delegating{Delegations: icstate.Delegations{icstate.NewDelegation(c35Addr[to], amt)}}, r.pi.GetTermPeriod())
-					} else {
-						voter.ApplyVoting(&icreward.Bonding{Bonds: icstate.Bonds{icstate.NewBond(c35Addr[to], amt)}}, r.pi.GetTermPeriod())
-					}
+			}
+			if wage[i].Sign() > 0 {
+				res.wagePaid++
+			}
+			if i == 3 && p.Status() == icmodule.ESEnable && p.AccumulatedPower().Sign() > 0 {
+				res.newcomer = true
+			}
+			if p.AccumulatedPower().Cmp(p.AccumulatedVoted()) < 0 && p.AccumulatedPower().Sign() > 0 {
+				res.capped++
+			}
+		}
+
+		// ---- oracle 1: budget. fund(term) = Iglobal*rate/10000 * period / MonthBlock loop, *1000 IScore
+		budget := func(rate int64) *big.Int { // scaled by MonthBlock*RateDenom to stay exact
+			b := new(big.Int).Mul(iglobal, big.NewInt(rate))
+			b.Mul(b, big.NewInt(period))
+			return b.Mul(b, big.NewInt(c35IScorePerLoop))
+		}
+		scale := big.NewInt(c35MonthBlock * c35RateDenom)
+		prepSide := new(big.Int).Sub(total, sumWage) // commissions + voter rewards
+		if new(big.Int).Mul(prepSide, scale).Cmp(budget(c35IprepRate)) > 0 {
+			bad("budget-exceeded:commission+voter>Iprep-fund-of-term",
+				"credited commission+voter rewards %s IScore > Iprep fund of the term %s/%s", prepSide, budget(c35IprepRate), scale)
+		}
+		if new(big.Int).Mul(sumWage, scale).Cmp(budget(c35IwageRate)) > 0 {
+			bad("budget-exceeded:wage>Iwage-fund-of-term",
+				"credited wages %s IScore > Iwage fund of the term %s/%s", sumWage, budget(c35IwageRate), scale)
+		}
+		if new(big.Int).Mul(total, scale).Cmp(budget(c35IprepRate+c35IwageRate)) > 0 {
+			bad("budget-exceeded:total>Iprep+Iwage-fund-of-term",
+				"credited total %s IScore > fund of the term %s/%s", total, budget(c35IprepRate+c35IwageRate), scale)
+		}
+		if st := ctx.stats.Total(); st.Cmp(total) != 0 {
+			bad("credited-iscore!=reported-total", "sum of IScore entries %s, calculator statistics %s", total, st)
+		}
+
+		// ---- oracle 2: proportional share, from the reference accumulated votes
+		avTotal := [c35NP]*big.Int{}
+		for i := range avTotal {
+			avTotal[i] = new(big.Int)
+		}
+		for k, x := range av {
+			if x.Sign() < 0 {
+				res.herr = "illegal history: negative accumulated votes"
+				return
+			}
+			avTotal[k[1]].Add(avTotal[k[1]], x)
+		}
+		share := func(from, to int) *big.Int {
+			x := av[pair{from, to}]
+			if x == nil || x.Sign() == 0 || vr[to].Sign() == 0 || avTotal[to].Sign() == 0 {
+				return new(big.Int)
+			}
+			s := new(big.Int).Mul(x, vr[to])
+			return s.Quo(s, avTotal[to])
+		}
+		for i := 0; i < c35NP; i++ {
+			if vr[i].Sign() > 0 && avCode[i].Cmp(avTotal[i]) != 0 {
+				rel := "<"
+				if avCode[i].Cmp(avTotal[i]) > 0 {
+					rel = ">"
 				}
-				for _, e := range c.Events {
-					if e.Kind == c35KEnable || e.From != v {
+				bad("prep-accumulated-votes"+rel+"sum-of-voters-accumulated-votes",
+					"%s AccumulatedVoted()=%s, votes accumulated over the term from the raw history=%s", c35Names[i], avCode[i], avTotal[i])
+			}
+		}
+		voters := []int{c35V0, c35V1, 0}
+		for _, v := range voters {
+			want := new(big.Int)
+			for to := 0; to < c35NP; to++ {
+				s := share(v, to)
+				want.Add(want, s)
+				if s.Sign() > 0 {
+					res.pairs++
+				}
+			}
+			if want.Sign() > 0 {
+				res.paidVoters++
+			}
+			got := new(big.Int).Set(credited[v])
+			if v < c35NP {
+				got.Sub(got, commission[v])
+				got.Sub(got, wage[v])
+			}
+			if c := got.Cmp(want); c != 0 {
+				rel := "<"
+				if c > 0 {
+					rel = ">"
+				}
+				bad("voter-iscore"+rel+"proportional-share",
+					"%s credited %s as voter, proportional share of the voter rewards is %s", c35Names[v], got, want)
+			}
+		}
+		for i := 1; i < c35NP; i++ { // P-Reps that never vote: exactly commission + wage
+			want := new(big.Int).Add(commission[i], wage[i])
+			if credited[i].Cmp(want) != 0 {
+				bad("prep-iscore!=commission+wage", "%s credited %s, commission+wage=%s", c35Names[i], credited[i], want)
+			}
+		}
+
+		// ---- oracle 3: the real Voter, one (voter, P-Rep) pair at a time
+		if r.pi != nil {
+			for to := 0; to < c35NP; to++ {
+				sum := new(big.Int)
+				for _, v := range voters {
+					if av[pair{v, to}] == nil {
 						continue
 					}
-					for _, vt := range e.Votes {
-						if vt.To != to {
+					voter := NewVoter(c35Addr[v], c35Log)
+					for _, b := range termBase {
+						if b.from != v || b.to != to {
 							continue
 						}
-						t := vtDelegate
-						if e.Kind == c35KBond {
-							t = vtBond
+						amt := new(big.Int).Set(b.amt)
+						if b.kind == c35KDeleg {
+							voter.ApplyVoting(&icreward.Delegating{Delegations: icstate.Delegations{icstate.NewDelegation(c35Addr[to], amt)}}, r.pi.GetTermPeriod())
+						} else {
+							voter.ApplyVoting(&icreward.Bonding{Bonds: icstate.Bonds{icstate.NewBond(c35Addr[to], amt)}}, r.pi.GetTermPeriod())
 						}
-						voter.ApplyEvent(NewVoteEvent(t, icstage.VoteList{icstage.NewVote(c35Addr[to], c35Big(vt.Amt))}, e.Off), r.pi.OffsetLimit()-e.Off)
 					}
-				}
-				var got *big.Int
-				if p := ev.Catch(func() { got = voter.CalculateReward(r.pi) }); p != "" {
-					bad("voter-calculate-panic", "Voter.CalculateReward(%s->%s) panicked: %s", c35Names[v], c35Names[to], p)
-					continue
-				}
-				want := share(v, to)
-				if c := got.Cmp(want); c != 0 {
-					rel := "<"
-					if c > 0 {
-						rel = ">"
+					for _, e := range events {
+						if e.Kind == c35KEnable || e.From != v {
+							continue
+						}
+						for _, vt := range e.Votes {
+							if vt.To != to {
+								continue
+							}
+							t := vtDelegate
+							if e.Kind == c35KBond {
+								t = vtBond
+							}
+							voter.ApplyEvent(NewVoteEvent(t, icstage.VoteList{icstage.NewVote(c35Addr[to], c35Big(vt.Amt))}, e.Off), r.pi.OffsetLimit()-e.Off)
+						}
 					}
-					bad("Voter.CalculateReward"+rel+"proportional-share",
-						"%s->%s: Voter.CalculateReward=%s, accumulated votes %s * voter reward %s / total accumulated votes %s = %s",
-						c35Names[v], c35Names[to], got, av[pair{v, to}], vr[to], avTotal[to], want)
+					var got *big.Int
+					if p := ev.Catch(func() { got = voter.CalculateReward(r.pi) }); p != "" {
+						bad("voter-calculate-panic", "Voter.CalculateReward(%s->%s) panicked: %s", c35Names[v], c35Names[to], p)
+						continue
+					}
+					want := share(v, to)
+					if c := got.Cmp(want); c != 0 {
+						rel := "<"
+						if c > 0 {
+							rel = ">"
+						}
+						bad("Voter.CalculateReward"+rel+"proportional-share",
+							"%s->%s: Voter.CalculateReward=%s, accumulated votes %s * voter reward %s / total accumulated votes %s = %s",
+							c35Names[v], c35Names[to], got, av[pair{v, to}], vr[to], avTotal[to], want)
+					}
+					sum.Add(sum, got)
 				}
-				sum.Add(sum, got)
-			}
-			if sum.Cmp(vr[to]) > 0 {
-				bad("voter-shares>prep-voter-reward", "%s: shares paid %s > VoterReward() %s", c35Names[to], sum, vr[to])
+				if sum.Cmp(vr[to]) > 0 {
+					bad("voter-shares>prep-voter-reward", "%s: shares paid %s > VoterReward() %s", c35Names[to], sum, vr[to])
+				}
 			}
 		}
+
+		// ---- oracle 4: the records written for the next term are the true votes at the end of this term
+		for i := 0; i < c35NP; i++ {
+			wantD, wantB := new(big.Int), new(big.Int)
+			for k, x := range cur {
+				if k[1] == i {
+					if k[2] == c35KBond {
+						wantB.Add(wantB, x)
+					} else {
+						wantD.Add(wantD, x)
+					}
+				}
+			}
+			gotD, gotB := new(big.Int), new(big.Int)
+			if vd, err := ctx.temp.GetVoted(c35Addr[i]); err == nil && vd != nil {
+				gotD, gotB = vd.Delegated(), vd.Bonded()
+			}
+			if gotD.Cmp(wantD) != 0 {
+				bad("written-Voted.delegated!=sum-of-delegations", "%s: Voted record for the next term has delegated=%s, voters delegate %s", c35Names[i], gotD, wantD)
+			}
+			if gotB.Cmp(wantB) != 0 {
+				bad("written-Voted.bonded!=sum-of-bonds", "%s: Voted record for the next term has bonded=%s, voters bond %s", c35Names[i], gotB, wantB)
+			}
+		}
+		for _, v := range voters {
+			wd, wb := map[int]*big.Int{}, map[int]*big.Int{}
+			for k, x := range cur {
+				if k[0] == v && x.Sign() != 0 {
+					if k[2] == c35KBond {
+						wb[k[1]] = x
+					} else {
+						wd[k[1]] = x
+					}
+				}
+			}
+			okD, okB := true, true
+			nd, nb := 0, 0
+			if d, err := ctx.temp.GetDelegating(c35Addr[v]); err == nil && d != nil {
+				for _, x := range d.Delegations {
+					nd++
+					found := false
+					for to, amt := range wd {
+						if c35Addr[to].Equal(x.To()) && amt.Cmp(x.Amount()) == 0 {
+							found = true
+						}
+					}
+					okD = okD && found
+				}
+			}
+			if b, err := ctx.temp.GetBonding(c35Addr[v]); err == nil && b != nil {
+				for _, x := range b.Bonds {
+					nb++
+					found := false
+					for to, amt := range wb {
+						if c35Addr[to].Equal(x.To()) && amt.Cmp(x.Amount()) == 0 {
+							found = true
+						}
+					}
+					okB = okB && found
+				}
+			}
+			if !okD || nd != len(wd) {
+				bad("written-Delegating!=voter-delegations", "%s: Delegating record for the next term differs from its delegations", c35Names[v])
+			}
+			if !okB || nb != len(wb) {
+				bad("written-Bonding!=voter-bonds", "%s: Bonding record for the next term differs from its bonds", c35Names[v])
+			}
+		}
+		baseSS = ctx.temp.GetSnapshot()
 	}
 	return
 }
@@ -813,6 +977,71 @@ func c35NewcomerSeqs(base *c35Case, maxVotes int, fn func(evs []c35Event)) {
 	rec(nil, 0)
 }
 
+// c35ChainSeqs enumerates chained histories over `terms` terms. Term 1: (no vote event | one of
+// the 11 vote actions at each offset) x (no enable event | one of the 7 enable events at the middle
+// offset). Every later term: no event | one of the 11 vote actions at the middle offset, legal with
+// respect to the votes in force after the previous terms.
+func c35ChainSeqs(base *c35Case, terms int, fn func(first []c35Event, next [][]c35Event)) {
+	acts := append(c35VoteActions(), c35NewcomerActions()[1])
+	ens := c35EnableActions()
+	offs := c35Offsets(base.Limit)
+	mid := offs[len(offs)/2]
+	cur := map[[3]int]*big.Int{}
+	for _, b := range base.Base {
+		cur[[3]int{b.From, b.To, b.Kind}] = c35Big(b.Amt)
+	}
+	get := func(from, to, kind int) *big.Int {
+		if x := cur[[3]int{from, to, kind}]; x != nil {
+			return x
+		}
+		return new(big.Int)
+	}
+	// votes(offsList, fn): fn(nil) and fn(event) for every applicable action/offset, with cur updated during fn
+	votes := func(ofl []int, f func(e *c35Event)) {
+		f(nil)
+		for _, o := range ofl {
+			for _, a := range acts {
+				vs := a.gen(get)
+				if vs == nil {
+					continue
+				}
+				for _, v := range vs {
+					cur[[3]int{a.from, v.To, a.kind}] = new(big.Int).Add(get(a.from, v.To, a.kind), c35Big(v.Amt))
+				}
+				f(&c35Event{Kind: a.kind, Off: o, From: a.from, Votes: vs, Name: a.name})
+				for _, v := range vs {
+					cur[[3]int{a.from, v.To, a.kind}] = new(big.Int).Sub(get(a.from, v.To, a.kind), c35Big(v.Amt))
+				}
+			}
+		}
+	}
+	var later func(first []c35Event, next [][]c35Event)
+	later = func(first []c35Event, next [][]c35Event) {
+		if len(next) == terms-1 {
+			fn(first, next)
+			return
+		}
+		votes([]int{mid}, func(e *c35Event) {
+			var t []c35Event
+			if e != nil {
+				t = []c35Event{*e}
+			}
+			later(first, append(append([][]c35Event(nil), next...), t))
+		})
+	}
+	votes(offs, func(e *c35Event) {
+		var first []c35Event
+		if e != nil {
+			first = []c35Event{*e}
+		}
+		later(first, nil)
+		for _, en := range ens {
+			later(append(append([]c35Event(nil), first...), c35Event{Kind: c35KEnable, Off: mid, Target: en.target, Status: int(en.status),
+				Name: fmt.Sprintf("%s status -> %s", c35Names[en.target], en.status)}), nil)
+		}
+	})
+}
+
 type c35Family struct {
 	name      string
 	configs   []*c35Case
@@ -820,6 +1049,7 @@ type c35Family struct {
 	maxEnable int
 	skipEmpty bool // the empty history of these configurations is covered by family A0
 	newcomer  bool // family N: histories are produced by c35NewcomerSeqs
+	chain     int  // family C: number of chained terms (0: single term)
 }
 
 func c35Commissions(all bool) [][c35NP]int64 {
@@ -877,23 +1107,26 @@ func c35Families(thorough bool) []c35Family {
 	if !thorough {
 		return []c35Family{
 			// A0: no events, broad configuration product
-			{"A0", mk("A0", []int{1, 2, 3}, []int64{0, 500}, []int{0, term}, full, lat, c35Statuses(6)), 0, 0, false, false},
+			{"A0", mk("A0", []int{1, 2, 3}, []int64{0, 500}, []int{0, term}, full, lat, c35Statuses(6)), 0, 0, false, false, 0},
 			// A1: exactly one vote event
-			{"A1", mk("A1", []int{2, 3}, []int64{0, 500}, []int{term}, full, lat[:1], c35Statuses(3)), 1, 0, true, false},
+			{"A1", mk("A1", []int{2, 3}, []int64{0, 500}, []int{term}, full, lat[:1], c35Statuses(3)), 1, 0, true, false, 0},
 			// AE: exactly one enable event
-			{"AE", mk("AE", []int{2, 3}, []int64{500}, []int{term}, full, lat[:1], c35Statuses(6)), 0, 1, true, false},
+			{"AE", mk("AE", []int{2, 3}, []int64{500}, []int{term}, full, lat[:1], c35Statuses(6)), 0, 1, true, false, 0},
 			// B: <=2 vote events and <=1 enable event
+			// C: two chained terms, term 2 is calculated on the records written by term 1
+			{"C", mk("C", []int{2, 3}, []int64{500}, []int{term}, c35BaseTables(2), lat[:1], c35Statuses(1)), 1, 1, true, false, 2},
 			// N: a P-Rep registers inside the term (enable event for an address without Voted entry) and is voted for
-			{"N", mk("N", []int{2, 3}, []int64{0, 500}, []int{term}, c35BaseTables(2), lat[:1], c35Statuses(2)), 2, 1, true, true},
-			{"B", mk("B", []int{2, 3}, []int64{500}, []int{term}, c35BaseTables(2), lat[:1], c35Statuses(2)), 2, 1, true, false},
+			{"N", mk("N", []int{2, 3}, []int64{0, 500}, []int{term}, c35BaseTables(2), lat[:1], c35Statuses(2)), 2, 1, true, true, 0},
+			{"B", mk("B", []int{2, 3}, []int64{500}, []int{term}, c35BaseTables(2), lat[:1], c35Statuses(2)), 2, 1, true, false, 0},
 		}
 	}
 	return []c35Family{
-		{"A0", mk("A0", []int{0, 1, 2, 3, 4}, []int64{0, 500, 10000}, []int{0, 1, term}, full, c35Commissions(true), c35Statuses(6)), 0, 0, false, false},
-		{"A1", mk("A1", []int{1, 2, 3, 4}, []int64{0, 500, 10000}, []int{1, term}, full, lat, c35Statuses(6)), 1, 0, true, false},
-		{"AE", mk("AE", []int{1, 2, 3, 4}, []int64{0, 500}, []int{1, term}, full, lat, c35Statuses(6)), 0, 1, true, false},
-		{"N", mk("N", []int{1, 2, 3, 4}, []int64{0, 500}, []int{1, term}, c35BaseTables(2), lat[:1], c35Statuses(2)), 3, 1, true, true},
-		{"B", mk("B", []int{1, 2, 3, 4}, []int64{0, 500}, []int{1, term}, narrow, lat[:1], c35Statuses(2)), 2, 1, true, false},
+		{"A0", mk("A0", []int{0, 1, 2, 3, 4}, []int64{0, 500, 10000}, []int{0, 1, term}, full, c35Commissions(true), c35Statuses(6)), 0, 0, false, false, 0},
+		{"A1", mk("A1", []int{1, 2, 3, 4}, []int64{0, 500, 10000}, []int{1, term}, full, lat, c35Statuses(6)), 1, 0, true, false, 0},
+		{"AE", mk("AE", []int{1, 2, 3, 4}, []int64{0, 500}, []int{1, term}, full, lat, c35Statuses(6)), 0, 1, true, false, 0},
+		{"N", mk("N", []int{1, 2, 3, 4}, []int64{0, 500}, []int{1, term}, c35BaseTables(2), lat[:1], c35Statuses(2)), 3, 1, true, true, 0},
+		{"C", mk("C", []int{2, 3}, []int64{0, 500}, []int{term}, c35BaseTables(2), lat[:1], c35Statuses(1)), 1, 1, true, false, 3},
+		{"B", mk("B", []int{1, 2, 3, 4}, []int64{0, 500}, []int{1, term}, narrow, lat[:1], c35Statuses(2)), 2, 1, true, false, 0},
 	}
 }
 
@@ -922,7 +1155,17 @@ func TestVerifC35(t *testing.T) {
 	}
 
 	fams := c35Families(r.Thorough())
-	var rewarded, voterPaid, multiPair, wagePaid, capped, unregPaid, nothing, herrs, enableHist, twoVote, newcomer int64
+	if only := os.Getenv("VERIF_C35_FAMILY"); only != "" { // debugging aid: one family, never exhaustive
+		var f2 []c35Family
+		for _, f := range fams {
+			if f.name == only {
+				f2 = append(f2, f)
+			}
+		}
+		fams = f2
+		r.Cap("restricted to family " + only)
+	}
+	var rewarded, voterPaid, multiPair, wagePaid, capped, unregPaid, nothing, herrs, enableHist, twoVote, newcomer, samePower, termsRun int64
 	var stopped int32
 	var firstErr atomic.Value
 	famCounts := map[string]int64{}
@@ -946,8 +1189,14 @@ func TestVerifC35(t *testing.T) {
 			}
 			base := fam.configs[i]
 			var local, lRew, lVot, lMulti, lWage, lCap, lUnreg, lNothing, lEn, lTwo int64
+			var chainNext [][]c35Event
 			enum := func(fn func(evs []c35Event)) {
-				if fam.newcomer {
+				if fam.chain > 0 {
+					c35ChainSeqs(base, fam.chain, func(first []c35Event, next [][]c35Event) {
+						chainNext = next
+						fn(first)
+					})
+				} else if fam.newcomer {
 					c35NewcomerSeqs(base, fam.maxVotes, fn)
 				} else {
 					c35EventSeqs(base, fam.maxVotes, fam.maxEnable, fam.skipEmpty, fn)
@@ -963,6 +1212,7 @@ func TestVerifC35(t *testing.T) {
 				}
 				c := *base
 				c.Events = evs
+				c.Next = chainNext
 				res := c35Exec(&c)
 				local++
 				if res.herr != "" {
@@ -1013,6 +1263,12 @@ func TestVerifC35(t *testing.T) {
 				if res.newcomer {
 					atomic.AddInt64(&newcomer, 1)
 				}
+				if res.cappedSamePower {
+					atomic.AddInt64(&samePower, 1)
+				}
+				if len(c.Next) > 0 {
+					atomic.AddInt64(&termsRun, int64(len(c.Next)))
+				}
 				if res.unregPaid {
 					lUnreg++
 					if sampleCase2.Load() == nil {
@@ -1060,6 +1316,8 @@ func TestVerifC35(t *testing.T) {
 	r.Set("cases_where_bond_requirement_caps_power", capped)
 	r.Set("cases_where_address_registered_in_term_is_credited", unregPaid) // expected 0: it is not ranked
 	r.Set("cases_where_address_registered_in_term_has_power", newcomer)
+	r.Set("chained_cases_where_a_later_term_follows_a_vote_change_that_left_a_bond_limited_power_unchanged", samePower)
+	r.Set("additional_chained_term_calculations", termsRun)
 	r.Set("cases_without_any_reward", nothing)
 	r.Set("cases_with_enable_event", enableHist)
 	r.Set("cases_with_two_vote_events", twoVote)
@@ -1067,7 +1325,7 @@ func TestVerifC35(t *testing.T) {
 	if e := firstErr.Load(); e != nil {
 		r.Sanity(false, "calculation could not be evaluated in %d cases, first: %v", herrs, e)
 	}
-	r.Sanity(r.Violations() > 0 || rewarded > 0 && voterPaid > 0 && multiPair > 0 && wagePaid > 0 && capped > 0 && nothing > 0 && enableHist > 0 && twoVote > 0 && newcomer > 0,
+	r.Sanity(r.Violations() > 0 || rewarded > 0 && voterPaid > 0 && multiPair > 0 && wagePaid > 0 && capped > 0 && nothing > 0 && enableHist > 0 && twoVote > 0 && newcomer > 0 && samePower > 0,
 		"vacuity: rewarded=%d voterPaid=%d multiPair=%d wage=%d capped=%d nothing=%d enable=%d twoVote=%d",
 		rewarded, voterPaid, multiPair, wagePaid, capped, nothing, enableHist, twoVote)
 	if s := sampleCase.Load(); s != nil {
